@@ -46,6 +46,7 @@ func NewReader(r io.Reader) io.ReadCloser {
 		rr.rBuf = br
 	} else {
 		rr.rBuf = bufio.NewReader(r)
+		rr.ownBuf = true
 	}
 	return rr
 }
@@ -57,6 +58,7 @@ type decompressor struct {
 	historyBuffer [2*historySize + lookAhead]uint8
 	r             io.Reader
 	rBuf          *bufio.Reader
+	ownBuf        bool // rBuf was allocated here, not handed in by the caller
 	err           error
 	srcErr        error
 	outputFull    bool // the last decoding step stopped at a full output window, not for lack of input
@@ -68,11 +70,15 @@ func (r *decompressor) Reset(under io.Reader, _ []byte) error {
 	r.r = under
 	if ur, ok := under.(*bufio.Reader); ok {
 		r.rBuf = ur
+		r.ownBuf = false
 	} else {
-		if r.rBuf != nil {
+		// only a buffer of our own may be pointed at the new source: a caller's
+		// *bufio.Reader still holds what follows the previous stream
+		if r.rBuf != nil && r.ownBuf {
 			r.rBuf.Reset(under)
 		} else {
 			r.rBuf = bufio.NewReader(under)
+			r.ownBuf = true
 		}
 	}
 
